@@ -478,7 +478,7 @@ pub fn run_c01() {
     }
     for k in ["legitimate_establishments", "attributed_events_with_proof"] {
         if stats.counters.get(k).copied().unwrap_or(0) == 0 {
-            mc::machinery(&format!("C01 vacuous: positive control {k} = 0"));
+            rep.vacuous(&format!("C01 vacuous: positive control {k} = 0"));
         }
     }
     rep.finish();
